@@ -383,6 +383,8 @@ impl<'a> Gen<'a> {
                 13 if t == Ty::DInt && !sc.structs.is_empty() => format!("{}.x", self.r.pick(&sc.structs).clone()),
                 14 => self.call(sc, t, d).unwrap_or_else(|| self.literal(t)),
                 15 if t == Ty::Int => format!("LEN({})", self.expr(sc, Ty::Str, d)),
+                // selector from -4..4: below, inside, exactly at and above the number of inputs
+                15 if t.is_signed() => format!("MUX(({} MOD {}#5), {}, {}, {})", self.expr(sc, t, d), t.name(), self.expr(sc, t, d), self.expr(sc, t, d), self.literal(t)),
                 _ => format!("({} + {})", self.expr(sc, t, d), self.literal(t)),
             },
             t if t.is_real() => match self.r.below(if self.k.power { 10 } else { 8 }) {
@@ -461,6 +463,14 @@ impl<'a> Gen<'a> {
                         let (n, nty) = c[self.r.below(c.len() as u64) as usize].clone();
                         return format!("{} := (*w {}_TO_{}( w*){}(*w ) w*);", v.name, nty.name(), v.ty.name(), n);
                     }
+                }
+                if v.ty.is_int() && self.r.chance(1, 12) {
+                    // formal call of an extensible standard function with its inputs named out of order
+                    let f = *self.r.pick(&["MAX", "MIN"]);
+                    let mut idx: Vec<usize> = if self.r.bool() { vec![1, 2] } else { vec![1, 2, 3] };
+                    self.r.shuffle(&mut idx);
+                    let args: Vec<String> = idx.iter().map(|i| format!("IN{i} := {}", self.expr(sc, v.ty, 1))).collect();
+                    return format!("{} := {f}({});", v.name, args.join(", "));
                 }
                 format!("{} := {};", v.name, self.expr(sc, v.ty, 0))
             }
@@ -790,7 +800,7 @@ NAMESPACE Inner\nFUNCTION Deep : DINT\nVAR_INPUT\n  a : DINT;\nEND_VAR\nDeep := 
     }
     config.push_str("END_VAR\n");
     if g.k.retain_block {
-        config.push_str("VAR_GLOBAL RETAIN\n  g_keep_l : LTIME := LTIME#7ms;\n  g_keep_i : INT := INT#3;\n  g_keep_w : WSTRING[8] := \"ab\";\nEND_VAR\n");
+        config.push_str("VAR_GLOBAL RETAIN\n  g_keep_l : LTIME := LTIME#7ms;\n  g_keep_i : INT := INT#3;\n  g_keep_w : WSTRING[8] := \"ab\";\nEND_VAR\nVAR_GLOBAL PERSISTENT\n  g_keep_p : DINT := 5;\nEND_VAR\n");
     }
     let two_tasks = n_progs >= 2 && g.r.bool();
     let bg_two = g.r.bool();
